@@ -345,7 +345,7 @@ Proof. vm_compute. split; reflexivity. Qed.
 
 (* default=str: a datetime in context._rebac and its str() text in a node's ctx have one hash.  The
    second node is served from the first one's memo entry although the checker denies its query:
-   the hypothesis of c13_memo_transparent / c13_exact_triple_exact is needed (finding F23) *)
+   the hypothesis of c13_memo_transparent / c13_exact_triple_exact is needed (finding F25) *)
 Definition ex_date_policy : value :=
   VObj [("id", VStr "p"); ("algorithm", VStr "deny-overrides");
         ("rules", VList [VObj [("id", VStr "r"); ("effect", VStr "permit"); ("actions", VList [VStr "read"]);
